@@ -27,7 +27,7 @@ verifyBatchOnly_eq verifyBatchOnly_panic_iff modeOf_eq verify_true_admissible se
 verify_after_history verifyBatchOnly_after_history""".split()]
 L0_THMS = {"Voi.Props.L0." + n: ["Voi.Props.L0." + n] for n in """FieldU64_feMulGeneric FieldU64_fePow2kGeneric1 FieldU64_reduce FieldU64_Add
 FieldU64_Sub FieldU64_Neg FieldU64_Mul121666 FieldU64_Square2 FieldU64_SetBytes FieldU64_SetBytesWide FieldU64_ToBytes FieldU64_ConditionalSelect
-FieldU64_ConditionalSwap FieldU64_ConditionalAssign FieldU32_Mul FieldU32_Pow2k1 FieldU32_reduce FieldU32_Add FieldU32_Sub FieldU32_Neg
+FieldU64_ConditionalSwap FieldU64_ConditionalAssign FieldAsm_feMul FieldAsm_fePow2k1 FieldU32_Mul FieldU32_Pow2k1 FieldU32_reduce FieldU32_Add FieldU32_Sub FieldU32_Neg
 FieldU32_Mul121666 FieldU32_Square2 FieldU32_SetBytes FieldU32_SetBytesWide FieldU32_ToBytes FieldU32_ConditionalSelect FieldU32_ConditionalSwap
 FieldU32_ConditionalAssign ScalarU64_scalarMulInternal ScalarU64_squareInternal ScalarU64_MontgomeryReduce ScalarU64_Add ScalarU64_Sub
 ScalarU64_SetBytes ScalarU64_ToBytes ScalarU64_FromMontgomery ScalarU64_MontgomeryMul ScalarU32_scalarMulInternal ScalarU32_squareInternal
